@@ -5,6 +5,9 @@ cd /repo || exit 2
 if [ -n "$(git status --porcelain --untracked-files=no)" ]; then echo "/repo not clean"; exit 2; fi
 git apply "$P" || { echo "patch does not apply"; exit 2; }
 cd /verif
+cp evidence/$ID.json /tmp/evidence_backup_$ID.json 2>/dev/null
 ./check $ID --tier $TIER > /tmp/trial.out 2>&1; rc=$?
 git -C /repo checkout -- .
+# the evidence written while a seeded change was applied is not evidence about /repo: restore
+cp /tmp/evidence_backup_$ID.json evidence/$ID.json 2>/dev/null
 echo "exit=$rc"; grep -E "^(VIOLATION|KNOWN|OK|  )" /tmp/trial.out | head -8
